@@ -166,7 +166,7 @@ WriteMessage(st, payload, buflen) ==
   IF ~st.turn \/ Finished(st)
   THEN [st |-> st, cause |-> (IF ~st.turn /\ Finished(st) THEN "W_TURN_FINISHED"
                               ELSE IF ~st.turn THEN "W_TURN" ELSE "W_FINISHED"),
-        fields |-> <<>>, len |-> 0, okst |-> st, enc |-> FALSE]
+        fields |-> <<>>, pfields |-> <<>>, len |-> 0, okst |-> st, enc |-> FALSE]
   ELSE
   LET w    == WToks(st, CurTokens(st), 0, <<>>, buflen)
       st1  == w.st
@@ -180,14 +180,16 @@ WriteMessage(st, payload, buflen) ==
       st2  == [st1 EXCEPT !.ss = r.ss, !.pos = @ + 1, !.turn = FALSE,
                           !.c1 = IF last THEN sp.c1 ELSE @,
                           !.c2 = IF last THEN sp.c2 ELSE @]
-      pst  == [st1 EXCEPT !.ss = r.ss]       \* partial state if the length limit trips after encryption
+      \* pfields: fields produced (and therefore encryptions performed) before a failure
+      fail(pstate, cz, pf) == [st |-> pstate, cause |-> cz, fields |-> <<>>, pfields |-> pf,
+                               len |-> 0, okst |-> pstate, enc |-> FALSE]
   IN
-  IF w.cause # "none" THEN [st |-> st1, cause |-> w.cause, fields |-> <<>>, len |-> 0, okst |-> st1, enc |-> FALSE]
-  ELSE IF need > buflen THEN [st |-> st1, cause |-> "W_BUF_PAYLOAD", fields |-> <<>>, len |-> 0, okst |-> st1, enc |-> FALSE]
-  ELSE IF need > MAXMSG THEN [st |-> pst, cause |-> "W_MAXLEN", fields |-> <<>>, len |-> 0, okst |-> pst, enc |-> FALSE]
+  IF w.cause # "none" THEN fail(st1, w.cause, w.fields)
+  ELSE IF need > buflen THEN fail(st1, "W_BUF_PAYLOAD", w.fields)
+  ELSE IF need > MAXMSG THEN fail(st1, "W_MAXLEN", w.fields)   \* refused BEFORE the payload is encrypted (C06)
   ELSE IF ~hk /\ w.idx + plen + TAGLEN > buflen
-       THEN [st |-> st1, cause |-> "W_SLACK", fields |-> flds, len |-> need, okst |-> st2, enc |-> hk]
-  ELSE [st |-> st2, cause |-> "none", fields |-> flds, len |-> need, okst |-> st2, enc |-> hk]
+       THEN [st |-> st1, cause |-> "W_SLACK", fields |-> flds, pfields |-> w.fields, len |-> need, okst |-> st2, enc |-> hk]
+  ELSE [st |-> st2, cause |-> "none", fields |-> flds, pfields |-> flds, len |-> need, okst |-> st2, enc |-> hk]
 
 (* ---- ReadMessage ------------------------------------------------------ *)
 RRes(st, off, cause) == [st |-> st, off |-> off, cause |-> cause]
